@@ -47,6 +47,7 @@ def _kw(c: ast.Call) -> dict:
 
 def update_flags(ctx: Ctx, rule: str) -> None:
     fn = ctx.repo.func(UPD)
+    ctx.require_locals(UPD, ["clean_graph", "run_graph", "skip_graph", "setup_dict", "flag_state", "vm_objects", "from_state", "to_state", "vm_name", "worker"])
     wl = the_loop(ctx, UPD, ast.For, lambda l: ast.unparse(l.iter) == "graph.workers.values()", "worker loop of update")
     views = loop_iteration_views(ctx, UPD, wl, names_interesting({"flag_intersection", "flag_children", "parse_object_trees", "get_nodes_by_name", "new_nodes", "new_objects",
                                                                   "setup_dict"}, extra=lambda n: isinstance(n, ast.Raise)))
